@@ -4,7 +4,7 @@
   The remaining 4 - 11/5 ulp of the property's budget is consumed analytically by the range
   reduction (Proofs/SinReduce.lean, Spec/C09.lean).
 -/
-import FixedMath.Model.Math
+import FixedMath.Model.Sin
 import FixedMath.Check.Taylor
 
 namespace FixedMath.Chk
